@@ -130,6 +130,8 @@ type CtxObj struct {
 	Parent   *CtxObj
 	Children []*CtxObj
 	Values   map[string]Value
+	vkey     Value
+	vval     Value
 }
 
 type TimerObj struct {
